@@ -88,6 +88,9 @@ def gen_case(rng):
         spec["dir"] = "max"
         pool = pool + ([gz] if ("gene" in kind and gz not in pool) else []) + ([] if "gene" in kind else ["SRC_Z", "MAIN_Z", "THIN_Z", "OUT_Z"])
     case["_pool"] = pool
+    # read-only calls first, on about a third of the cases (decided from the content of the case: the case stream itself stays as it was)
+    import zlib
+    case["reads"] = zlib.crc32(json.dumps(spec, sort_keys=True).encode()) % 3 == 0
     case["history"] = rng.choice([None, None, "optimize", "deletion", "ctx_solve", "ctx_infeasible"])
     if kind.startswith("essential"):
         case["history"] = rng.choice([None, "deletion", "ctx_solve", "low_growth_deletion", "low_growth_deletion", "same_call", "same_call"])
@@ -154,6 +157,24 @@ def check_case(case):
         # what the same model object went through before the analysis: solves in another state leave their status, objective value and primal values in
         # the solver (the model itself is as before)
         hist = case.get("history")
+        if case.get("reads"):
+            # calls that only look at the model (copies of its reactions / metabolites / genes, sums, summaries, text forms): they must not leave
+            # anything behind that a later deletion sweep depends on
+            try:
+                for r in list(m.reactions):
+                    r.copy()
+                    str(r), r.reaction, r.gene_name_reaction_rule
+                for x in list(m.metabolites)[:2]:
+                    x.copy()
+                for g in list(m.genes)[:2]:
+                    g.copy()
+                if len(m.reactions) > 1:
+                    m.reactions[0] + m.reactions[1]
+                    m.reactions[0] - m.reactions[1]
+                m.reactions[0].summary()
+                m.metabolites[0].summary()
+            except Exception:
+                pass
         try:
             if hist == "optimize":
                 m.optimize()
